@@ -924,7 +924,13 @@ impl<'a> CompilerState<'a> {
                 let mut px = pair.into_inner();
                 let mut s = self.compile_quoted_string(px.next().unwrap())?;
                 let size = if let Some(x) = px.next() {
-                    Some(self.parse_calc(x.into_inner())? as u32)
+                    let n = self.parse_calc(x.into_inner())?;
+                    if n < 0 {
+                        return Err(
+                            self.syntax_error("The size of inline assembly can't be negative", pos)
+                        );
+                    }
+                    Some(n as u32)
                 } else {
                     None
                 };
